@@ -123,3 +123,24 @@ func TestStore_SecondaryLoadingExpired(t *testing.T) {
 	require.Equal(t, 1003, v)
 	require.Equal(t, 1, loads)
 }
+
+func TestStore_SecondaryLoadingDemote(t *testing.T) {
+	secondary := NewSimpleMapSecondary[int, int]()
+	store := NewLoadingStore(newSecondaryTestStore(secondary, 10))
+	defer store.Close()
+	store.Loader(func(ctx context.Context, key int) (Loaded[int], error) {
+		return Loaded[int]{Value: key + 1000, Cost: 1}, nil
+	})
+
+	for i := 0; i < 100; i++ {
+		v, err := store.Get(context.TODO(), i)
+		require.Nil(t, err)
+		require.Equal(t, i+1000, v)
+	}
+	// loaded entries should be written to secondary cache on eviction
+	key := waitDemoted(t, store.Store, secondary, 100)
+	v, _, _, ok, err := secondary.Get(key)
+	require.Nil(t, err)
+	require.True(t, ok)
+	require.Equal(t, key+1000, v)
+}
